@@ -47,9 +47,14 @@ func (l *pipeListener) Accept() (net.Conn, error) {
 		return nil, errors.New("pipe listener closed")
 	}
 }
-func (l *pipeListener) Close() error { l.once.Do(func() { close(l.closed) }); return nil }
+func (l *pipeListener) Close() error   { l.once.Do(func() { close(l.closed) }); return nil }
 func (l *pipeListener) Addr() net.Addr { return simAddr{} }
 func (l *pipeListener) dial() (net.Conn, error) {
+	select {
+	case <-l.closed:
+		return nil, errors.New("connection refused: listener closed")
+	default:
+	}
 	a, b := net.Pipe()
 	select {
 	case l.ch <- b:
